@@ -126,7 +126,12 @@ func (evt *throwEvent) NextAction(ctx context.Context, flow Flow) chan IAction {
 	})
 
 	response := make(chan IAction, 1)
-	evt.mch <- nextActionMessage{response: response, flow: flow}
+	select {
+	case evt.mch <- nextActionMessage{response: response, flow: flow}:
+	case <-ctx.Done():
+		// the node's loop may have left already; the token's own select
+		// observes the cancellation
+	}
 	return response
 }
 
